@@ -51,7 +51,11 @@ type annStub struct{ calls chan *annCall }
 
 func (s *annStub) Announce(ctx context.Context, req tracker.AnnounceRequest) (*tracker.AnnounceResponse, error) {
 	c := &annCall{ev: req.Event, nw: req.NumWant, ctx: ctx, replyC: make(chan annReply, 1)}
-	s.calls <- c
+	select {
+	case s.calls <- c:
+	case <-ctx.Done(): // queue full (an announce storm) and the announcer has moved on
+		return nil, ctx.Err()
+	}
 	select {
 	case r := <-c.replyC:
 		return r.resp, r.err
@@ -83,20 +87,20 @@ func (r *annRun) outstanding() bool {
 }
 
 // await reports what the announcer does next (see the suite comment).
-func (r *annRun) await(prev *annCall) string {
+func (r *annRun) await(prev *annCall) string { return r.awaitWith(prev, nil) }
+
+func (r *annRun) awaitWith(prev, pre *annCall) string {
 	stuckAt := time.Now().Add(3 * time.Second)
+	preC := make(chan *annCall, 1)
+	if pre != nil {
+		preC <- pre
+	}
 	for {
 		select {
+		case c := <-preC:
+			return r.gotCall(prev, c)
 		case c := <-r.stub.calls:
-			st := r.a.Stats()
-			gap := int64(0)
-			if !r.lastAnn.IsZero() {
-				gap = st.LastAnnounce.Sub(r.lastAnn).Microseconds()
-			}
-			r.lastAnn = st.LastAnnounce
-			cancelled := prev != nil && !prev.done && prev.ctx.Err() != nil
-			r.cur = c
-			return fmt.Sprintf("ann ev=%s nw=%d gap=%d cancelled=%s", c.ev.String(), c.nw, gap, b01(cancelled))
+			return r.gotCall(prev, c)
 		default:
 		}
 		if r.outstanding() {
@@ -108,8 +112,7 @@ func (r *annRun) await(prev *annCall) string {
 				// make sure no announce slipped in between the channel poll and Stats
 				select {
 				case c := <-r.stub.calls:
-					r.stub.calls <- c
-					continue
+					return r.gotCall(prev, c)
 				default:
 				}
 				return "idle status=" + annStatusNames[st.Status]
@@ -122,12 +125,23 @@ func (r *annRun) await(prev *annCall) string {
 	}
 }
 
+func (r *annRun) gotCall(prev, c *annCall) string {
+	st := r.a.Stats()
+	gap := int64(0)
+	if !r.lastAnn.IsZero() {
+		gap = st.LastAnnounce.Sub(r.lastAnn).Microseconds()
+	}
+	r.lastAnn = st.LastAnnounce
+	cancelled := prev != nil && !prev.done && prev.ctx.Err() != nil
+	r.cur = c
+	return fmt.Sprintf("ann ev=%s nw=%d gap=%d cancelled=%s", c.ev.String(), c.nw, gap, b01(cancelled))
+}
+
 // awaitCall waits for the next announce to reach the tracker, whatever the state looks like meanwhile.
 func (r *annRun) awaitCall(prev *annCall) string {
 	select {
 	case c := <-r.stub.calls:
-		r.stub.calls <- c // hand it to await, which formats it
-		return r.await(prev)
+		return r.awaitWith(prev, c)
 	case <-time.After(3 * time.Second):
 		return "stuck status=" + annStatusNames[r.a.Stats().Status]
 	}
